@@ -15,6 +15,8 @@ EXTENDS Naturals, Integers, Sequences, FiniteSets, TLC
 CONSTANTS MaxOps, Deviations   \* "AddNoiseHalvesArray": add_noise() with the
                                \* default min_amplitude halves an array-valued
                                \* stored noise floor in place
+                               \* "CleanKeepsWeights": Simulation.clean(
+                               \* 'computed') leaves data['weights'] in place
 
 Idx == {1, 2}
 Abs == << << <<5, 13>>, <<2, 5>> >>, << <<13, 0>>, <<5, 2>> >> >>  \* 0 = NaN
@@ -38,16 +40,19 @@ VARIABLES keys,   \* [s, r, f]: current source / receiver / frequency key lists
           extra,  \* a second data set exists (add_to='noise'): its NaN mask
           nf, re, \* noise_floor / relative_error storage
           stdx,   \* explicit standard_deviation: 0 = not set, 1 = set (array)
+          wc,     \* data['weights'] = 1/std^2 as cached in the survey by a
+                  \* long-lived Simulation: "none" | "cur" (computed from the
+                  \* current noise settings and data) | "stale"
           nops, last
 
-vars == <<keys, nan, noisy, extra, nf, re, stdx, nops, last>>
+vars == <<keys, nan, noisy, extra, nf, re, stdx, wc, nops, last>>
 NoExtra == [on |-> FALSE, nan |-> [t \in Idx \X Idx \X Idx |-> FALSE]]
 
 Init ==
   /\ keys = [s |-> <<1, 2>>, r |-> <<1, 2>>, f |-> <<1, 2>>]
   /\ nan = [t \in Idx \X Idx \X Idx |-> Abs[t[1]][t[2]][t[3]] = 0]
   /\ noisy = FALSE /\ extra = NoExtra
-  /\ nf = NoSet /\ re = NoSet /\ stdx = 0
+  /\ nf = NoSet /\ re = NoSet /\ stdx = 0 /\ wc = "none"
   /\ nops = 0
   /\ last = [op |-> "init", a |-> <<>>, ok |-> TRUE]
 
@@ -69,19 +74,25 @@ StdSq16(t) ==
        + (IF re.k = "none" THEN 0
           ELSE REAt(t) * REAt(t) * Abs[t[1]][t[2]][t[3]] * Abs[t[1]][t[2]][t[3]])
 
+(* cached weights do not follow a change of what the std is computed from *)
+Outdate == wc' = IF wc = "cur" THEN "stale" ELSE wc
+
 (* ---- explicit assignments ---- *)
 SetNF(x) == /\ Step /\ x \in Settings /\ nf' = x
             /\ last' = [op |-> "set_nf", a |-> <<x.k, x.v>>, ok |-> TRUE]
+            /\ Outdate
             /\ UNCHANGED <<keys, nan, noisy, extra, re, stdx>>
 SetRE(x) == /\ Step /\ x \in Settings /\ re' = x
             /\ last' = [op |-> "set_re", a |-> <<x.k, x.v>>, ok |-> TRUE]
+            /\ Outdate
             /\ UNCHANGED <<keys, nan, noisy, extra, nf, stdx>>
 (* a value <= 0 anywhere is refused and nothing changes *)
 SetBad(which) == /\ Step /\ which \in {"set_nf", "set_re", "set_std"}
                  /\ last' = [op |-> which, a |-> <<"bad", 0>>, ok |-> FALSE]
-                 /\ UNCHANGED <<keys, nan, noisy, extra, nf, re, stdx>>
+                 /\ UNCHANGED <<keys, nan, noisy, extra, nf, re, stdx, wc>>
 SetStd(x) == /\ Step /\ x \in {0, 1} /\ stdx' = x
              /\ last' = [op |-> "set_std", a |-> <<"std", x>>, ok |-> TRUE]
+             /\ Outdate
              /\ UNCHANGED <<keys, nan, noisy, extra, nf, re>>
 
 (* ---- add_noise(min_offset, max_offset, min_amplitude, add_to) ---- *)
@@ -111,6 +122,7 @@ AddNoise(minamp, addto, o) ==
   /\ nf' = IF "AddNoiseHalvesArray" \in Deviations /\ minamp = "half_nf"
               /\ nf.k = "array" THEN [nf EXCEPT !.h = @ + 1] ELSE nf
   /\ last' = [op |-> "add_noise", a |-> <<minamp, addto, o[1], o[2]>>, ok |-> TRUE]
+  /\ IF addto = "observed" THEN Outdate ELSE wc' = wc
   /\ UNCHANGED <<keys, re, stdx>>
 
 (* ---- select(sources, receivers, frequencies, remove_empty) ---- *)
@@ -138,22 +150,31 @@ Select(ss, rr, ff, rem) ==
                       f |-> SelSeq(k1.f, kf)]
                 ELSE k1
   /\ last' = [op |-> "select", a |-> <<ss, rr, ff, rem>>, ok |-> TRUE]
-  /\ UNCHANGED <<nan, noisy, extra, nf, re, stdx>>
+  /\ UNCHANGED <<nan, noisy, extra, nf, re, stdx, wc>>
 
 (* copy(), from_dict(to_dict()), from_file(to_file()): nothing changes *)
 RoundTrip(how) ==
   /\ Step /\ how \in {"copy", "dict", "h5", "npz", "json"}
   /\ last' = [op |-> "roundtrip", a |-> <<how>>, ok |-> TRUE]
-  /\ UNCHANGED <<keys, nan, noisy, extra, nf, re, stdx>>
+  /\ UNCHANGED <<keys, nan, noisy, extra, nf, re, stdx, wc>>
 
-(* Simulation.misfit on a copy of the survey: reads, changes nothing *)
+(* Simulation.misfit on a copy of the survey (cleaned first): reads,        *)
+(* changes nothing                                                          *)
 Misfit ==
   /\ Step /\ StdDefined
   /\ last' = [op |-> "misfit", a |-> <<>>, ok |-> TRUE]
+  /\ UNCHANGED <<keys, nan, noisy, extra, nf, re, stdx, wc>>
+(* a Simulation bound to THIS survey: clean('computed'), then misfit.  The   *)
+(* clean drops the cached weights, the misfit recomputes them from the      *)
+(* current noise settings and leaves them cached in the survey's data.      *)
+SimMisfit ==
+  /\ Step /\ StdDefined
+  /\ wc' = IF "CleanKeepsWeights" \in Deviations /\ wc # "none" THEN wc ELSE "cur"
+  /\ last' = [op |-> "sim_misfit", a |-> <<>>, ok |-> TRUE]
   /\ UNCHANGED <<keys, nan, noisy, extra, nf, re, stdx>>
 
 Next ==
-  \/ Misfit
+  \/ Misfit \/ SimMisfit
   \/ \E x \in Settings : SetNF(x) \/ SetRE(x)
   \/ \E w \in {"set_nf", "set_re", "set_std"} : SetBad(w)
   \/ \E x \in {0, 1} : SetStd(x)
@@ -164,6 +185,18 @@ Next ==
 
 Spec == Init /\ [][Next]_vars
 
+(* a sub-alphabet for random walks that dwell on the life of one Simulation *)
+(* bound to the survey (every behaviour of SpecW is a behaviour of Spec)    *)
+SetsW == {NoSet, [k |-> "scalar", v |-> 1, h |-> 0], [k |-> "array", v |-> 4, h |-> 0],
+          [k |-> "array", v |-> 2, h |-> 0]}
+NextW ==
+  \/ SimMisfit \/ Misfit
+  \/ \E x \in SetsW : SetNF(x) \/ SetRE(x)
+  \/ \E x \in {0, 1} : SetStd(x)
+  \/ RoundTrip("copy") \/ RoundTrip("json")
+  \/ \E a \in {"observed", "noise"} : AddNoise("none", a, <<0, Inf>>)
+SpecW == Init /\ [][NextW]_vars
+
 (* ============================ properties (C13) =========================== *)
 TypeOK == /\ keys.s # <<>> /\ keys.r # <<>> /\ keys.f # <<>>
           /\ nf.k \in {"none", "scalar", "array"} /\ stdx \in {0, 1}
@@ -173,6 +206,9 @@ OnlyAssignmentsChangeNoise ==
   [][(last'.op \notin {"set_nf", "set_re", "set_std"} \/ ~last'.ok)
         => UNCHANGED <<nf, re, stdx>>]_vars
 NeverHalved == nf.h = 0 /\ re.h = 0
+(* after the documented refresh (clean) the misfit of a long-lived          *)
+(* simulation is computed from the current noise settings                   *)
+SimMisfitFollowsNoise == last.op = "sim_misfit" => wc = "cur"
 
 (* a selection contains exactly the chosen sub-cube (reference definition,  *)
 (* independent of the transcription above): chosen keys in the chosen       *)
